@@ -102,4 +102,13 @@ type Profil struct {
 	Élan   int
 	Ünvan  string
 	NomÉcu string
+	Port   uint16
+	Small  int8
+}
+
+// Preferred carries the very same constraint comment as Favorite.
+// gomacro:SQL ADD UNIQUE(IdCustomer)
+type Preferred struct {
+	IdCustomer IdCustomer `gomacro-sql-on-delete:"CASCADE"`
+	IdProduct  int64      `gomacro-sql-foreign:"Product" gomacro-sql-on-delete:"CASCADE"`
 }
